@@ -17,7 +17,7 @@ SweepBad(sw, n, i) ==
   ELSE (IF sw[i].n > 2 * n + 3 THEN { "C06:sweeps-exceed-2N+3:" \o sw[i].pass } ELSE {}) \cup SweepBad(sw, n, i + 1)
 
 Judge(e) ==
-  CASE e.ev = "obs"     -> {}
+  CASE e.ev \in {"obs", "skipped"} -> {}
     [] e.ev = "stable"  -> SweepBad(e.sweeps, e.n, 1)
     [] e.ev = "panic"   -> { "C06:" \o e.class \o ":panic:" \o e.loc }
     [] e.ev = "timeout" -> { "C06:" \o e.class \o ":timeout" }
